@@ -626,25 +626,50 @@ variable {VF PK BD BH CT V TM FH Key L Tx' Blk Tg Txid OP Vd : Type} [DecidableE
   (prev cur : Gen.FnTrackerC13.BlockHeader BH CT V TM × FH) (proof : TxoProof Tx' Blk)
 
 /-- **Adding a block, `validate_block` hands the validator the *forward* watches** (`get_all_forward_watches`): whatever
-    `get_all_reverse_watches` returns does not enter the outcome, for every instance of the library functions. -/
+    `get_all_reverse_watches` returns does not enter the outcome, for every instance of the library functions.  (The externals
+    are passed by name: the generated parameter order follows the order of first use in the source.) -/
 theorem C13_fn_validate_block_add_uses_forward (rev1 rev2 fwd : List Txid × List OP) :
-    ChainTracker.validate_block xh xt xp xm rev1 fwd xmk xb xv xd xr t height ebh prev cur proof false =
-    ChainTracker.validate_block xh xt xp xm rev2 fwd xmk xb xv xd xr t height ebh prev cur proof false := by
+    ChainTracker.validate_block (ext_BlockHeader_block_hash := xh) (ext_BlockHeader_target := xt)
+      (ext_BlockHeader_validate_pow := xp) (ext_max_target := xm) (ext_self_get_all_reverse_watches := rev1)
+      (ext_self_get_all_forward_watches := fwd) (ext_validator_factory_make_validator := xmk)
+      (ext_FilterHeader_to_byte_array := xb) (ext_Validator_validate_block := xv) (ext_diffchange_interval := xd)
+      (ext_validate_retarget := xr) t height ebh prev cur proof false =
+    ChainTracker.validate_block (ext_BlockHeader_block_hash := xh) (ext_BlockHeader_target := xt)
+      (ext_BlockHeader_validate_pow := xp) (ext_max_target := xm) (ext_self_get_all_reverse_watches := rev2)
+      (ext_self_get_all_forward_watches := fwd) (ext_validator_factory_make_validator := xmk)
+      (ext_FilterHeader_to_byte_array := xb) (ext_Validator_validate_block := xv) (ext_diffchange_interval := xd)
+      (ext_validate_retarget := xr) t height ebh prev cur proof false := by
   unfold ChainTracker.validate_block
   simp only [Bool.false_eq_true, if_false]
 
 /-- **Removing a block it hands it the *reverse* watches** (forward watches plus the outpoints seen spent): the forward
     set does not enter. -/
 theorem C13_fn_validate_block_remove_uses_reverse (rev fwd1 fwd2 : List Txid × List OP) :
-    ChainTracker.validate_block xh xt xp xm rev fwd1 xmk xb xv xd xr t height ebh prev cur proof true =
-    ChainTracker.validate_block xh xt xp xm rev fwd2 xmk xb xv xd xr t height ebh prev cur proof true := by
+    ChainTracker.validate_block (ext_BlockHeader_block_hash := xh) (ext_BlockHeader_target := xt)
+      (ext_BlockHeader_validate_pow := xp) (ext_max_target := xm) (ext_self_get_all_reverse_watches := rev)
+      (ext_self_get_all_forward_watches := fwd1) (ext_validator_factory_make_validator := xmk)
+      (ext_FilterHeader_to_byte_array := xb) (ext_Validator_validate_block := xv) (ext_diffchange_interval := xd)
+      (ext_validate_retarget := xr) t height ebh prev cur proof true =
+    ChainTracker.validate_block (ext_BlockHeader_block_hash := xh) (ext_BlockHeader_target := xt)
+      (ext_BlockHeader_validate_pow := xp) (ext_max_target := xm) (ext_self_get_all_reverse_watches := rev)
+      (ext_self_get_all_forward_watches := fwd2) (ext_validator_factory_make_validator := xmk)
+      (ext_FilterHeader_to_byte_array := xb) (ext_Validator_validate_block := xv) (ext_diffchange_interval := xd)
+      (ext_validate_retarget := xr) t height ebh prev cur proof true := by
   unfold ChainTracker.validate_block
   simp only [if_true]
 
 /-- the txid watches never reach the validator -/
 theorem C13_fn_validate_block_ignores_txid_watches (ra rb fa fb : List Txid) (ro fo : List OP) (b : Bool) :
-    ChainTracker.validate_block xh xt xp xm (ra, ro) (fa, fo) xmk xb xv xd xr t height ebh prev cur proof b =
-    ChainTracker.validate_block xh xt xp xm (rb, ro) (fb, fo) xmk xb xv xd xr t height ebh prev cur proof b := by
+    ChainTracker.validate_block (ext_BlockHeader_block_hash := xh) (ext_BlockHeader_target := xt)
+      (ext_BlockHeader_validate_pow := xp) (ext_max_target := xm) (ext_self_get_all_reverse_watches := (ra, ro))
+      (ext_self_get_all_forward_watches := (fa, fo)) (ext_validator_factory_make_validator := xmk)
+      (ext_FilterHeader_to_byte_array := xb) (ext_Validator_validate_block := xv) (ext_diffchange_interval := xd)
+      (ext_validate_retarget := xr) t height ebh prev cur proof b =
+    ChainTracker.validate_block (ext_BlockHeader_block_hash := xh) (ext_BlockHeader_target := xt)
+      (ext_BlockHeader_validate_pow := xp) (ext_max_target := xm) (ext_self_get_all_reverse_watches := (rb, ro))
+      (ext_self_get_all_forward_watches := (fb, fo)) (ext_validator_factory_make_validator := xmk)
+      (ext_FilterHeader_to_byte_array := xb) (ext_Validator_validate_block := xv) (ext_diffchange_interval := xd)
+      (ext_validate_retarget := xr) t height ebh prev cur proof b := by
   unfold ChainTracker.validate_block
   cases b <;> simp only [Bool.false_eq_true, if_false, if_true]
 end WatchSet
